@@ -8,6 +8,19 @@ def run(tier, seed):
     rep = Report('C18', tier, seed)
     for ob in determinism.obligations():
         rep.add(ob)
+    # state that survives a call (module-level tables, memoising decorators keyed by object identity) in the modules the simulators live in
+    from .C19 import module_level_state
+    from ..pyvc.verify import Source
+    for rel in ('EoN/simulation.py', 'EoN/__init__.py'):
+        try:
+            src, tree = Source.get(rel)
+        except Exception:
+            continue
+        bad = module_level_state(tree)
+        rep.add(Ob('no-module-level-state:%s' % rel, '%s:(module)' % rel, 'determinism', 'refuted' if bad else 'discharged',
+                   'scan of the AST for writes into module-level objects / memoising decorators (all inputs)', 0.0, detail='; '.join(bad[:5]),
+                   site=rel, witness=dict(sites=bad[:10]) if bad else None, engine='E2',
+                   replay_note='no function writes into a module-level object or is memoised' if not bad else 'state that survives a call'))
     from ..replay import determinism_native
     t = time.time()
     hs = (0, 1, 2) if tier == 'quick' else (0, 1, 2, 3, 4, 5, 6, 7)
